@@ -43,7 +43,7 @@ Lemma newconn_core cfg st1 conn link :
       let groups1 := rejoin_groups (r_groups st1) (cf_strategy (r_cfg st1)) client (tr_reqs trk) in
       let wills := match c_will conn1 with
                    | Some w => al_set str_eqb client w (r_wills st1)
-                   | None => r_wills st1
+                   | None => al_remove str_eqb client (r_wills st1)
                    end in
       let conn2 := set_c_will conn1 None in
       let '(conns, id) := slab_insert (r_conns st1) conn2 in
